@@ -54,7 +54,7 @@ def main(ctx):
     rep = ctx.replay_inputs()
     rep_i = [l for l in rep if not l.startswith("D ")] if rep else None
     rep_d = [l for l in rep if l.startswith("D ")] if rep else None
-    cases = ctx.gen_exec(bindir, "c17", int(os.environ.get('VERIF_N', ctx.n(60, 500))), inputs=rep_i) if (not rep or rep_i) else []
+    cases = ctx.gen_exec(bindir, "c17", int(os.environ.get('VERIF_N', ctx.n(60, 200))), inputs=rep_i) if (not rep or rep_i) else []
     shard = max(4, -(-max(len(cases), 1) // vf.NCPU))
     # Alarm on the property only: exactness wherever the statement demands it.
     if cases:
